@@ -21,7 +21,7 @@ def summary_cell(pid):
         ev = json.load(open(os.path.join(verif, 'evidence', pid + '.json')))
     except Exception:
         return None
-    rules = [x['rule'] for x in ev['coverage'].get('rules', [])]
+    rules = [x['rule'] for x in ev['coverage'].get('rules', []) if '-R' in x['rule']]
     nums = sorted({int(re.sub(r'\D', '', x.split('-R')[1])) for x in rules})
     known = ev['coverage']['obligations'] - ev['coverage']['discharged']
     cell = f"R{nums[0]}–R{nums[-1]} ({ev['coverage']['obligations']}"
